@@ -7,6 +7,9 @@ import (
 	"strings"
 )
 
+// PureFunc, when set, decides whether a repository function is free of side effects (checked on its SSA body).
+var PureFunc func(*types.Func) bool
+
 // OrderSite is one source of run-to-run variation found in a function body.
 type OrderSite struct {
 	Kind   string // "range-map", "MapRange", "MapKeys", "time.Now", "rand", "pid/env", "%p", "select", "go"
@@ -341,6 +344,9 @@ func exprPure(info *types.Info, e ast.Expr) bool {
 					pure = false
 					return false
 				}
+			}
+			if PureFunc != nil && PureFunc(fn) {
+				return true
 			}
 			nm := fn.Name()
 			for _, p := range []string{"Get", "Is", "Has", "String", "Name", "Lookup", "Len", "Error", "get", "is", "has"} {
